@@ -7,6 +7,13 @@ All statements are about the Impl model `CV.Range` (transcription of src/stream/
 every configuration allowed by the crate's static assertions (`RValid`: `1 ≤ P ≤ B ≤ W`,
 `2W ≤ S`, `W ∣ S` — not only `u8 … u128`), with per-symbol `PRECISION`/probability type,
 arbitrary well-formed models, all messages.
+
+`usize` is a 64-bit machine integer in the model (`usizeBits`): `num_inverted + 1`,
+`bulk.len() + num_inverted`, `num_words`, `num_bits` are checked operations.  `Fits c e k`
+(`Word::BITS · (bulk.len() + num_inverted + k + 2) < 2^64`) says the counters have room for `k`
+more symbols; for histories from `new()` it is `MsgFits c n` (`Word::BITS · (n + 2) < 2^64`,
+`n` = number of symbols), stated as an explicit hypothesis.  Without it the theorems are false:
+`from_raw_parts` with `num_inverted = usize::MAX` panics in `pos()` / `num_words()`.
 -/
 namespace CV.Range
 
@@ -15,10 +22,12 @@ namespace CV.Range
     overflows, `first_inverted_lower_word + 1` fits, the unchecked non-zero shift is sound), and
     the invariant is preserved.  The invariant holds for `new()` and `with_backend(..)`. -/
 theorem C02_range_encode_total {Sym : Type} {c : Cfg} (hc : RValid c) {m : Model Sym}
-    (hm : m.WellFormed c.P) {e : Encoder} (hI : Inv c e) {s : Sym} {cum p : Nat}
-    (hs : m.enc s = some (cum, p)) :
-    ∃ e', encode c m s e = .ok e' ∧ Inv c e' :=
-  encode_ok hc hm hI hs
+    (hm : m.WellFormed c.P) {e : Encoder} (hI : Inv c e) (hf : Fits c e 1) {s : Sym}
+    {cum p : Nat} (hs : m.enc s = some (cum, p)) :
+    ∃ e', encode c m s e = .ok e' ∧ Inv c e' ∧ Fits c e' 0 := by
+  obtain ⟨hp, hcp, _, _⟩ := hm.1 s cum p hs
+  refine ⟨encPure c e cum p, ?_, encPure_inv hc hI hp hcp, encPure_fits hc hI hp hcp hf⟩
+  unfold encode; rw [hs]; exact encodeCP_eq_pure hc hI hf hp hcp
 
 theorem C02_range_inv_new {c : Cfg} (hc : RValid c) : Inv c (Encoder.empty c) := inv_empty hc
 
@@ -26,29 +35,29 @@ theorem C02_range_inv_new {c : Cfg} (hc : RValid c) : Inv c (Encoder.empty c) :=
     abstraction `absE` (finalised words ++ held-back words ++ register as one big number):
     carries into held-back words are ordinary addition there. -/
 theorem C02_range_encode_refines {c : Cfg} (hc : RValid c) {e : Encoder} (hI : Inv c e)
-    {cum p : Nat} (hp : 0 < p) (hcp : cum + p ≤ 2^c.P) :
+    (hf : Fits c e 1) {cum p : Nat} (hp : 0 < p) (hcp : cum + p ≤ 2^c.P) :
     ∃ e', encodeCP c e cum p = .ok e' ∧
       absE c e' = RangeSpec.step c.W c.S (absE c e) c.P cum p :=
-  ⟨_, encodeCP_eq_pure hc hI hp hcp, encPure_abs hc hI hp hcp⟩
+  ⟨_, encodeCP_eq_pure hc hI hf hp hcp, encPure_abs hc hI hp hcp⟩
 
 /-- **(d) round trip**: encode any message from an empty encoder, seal, construct a decoder
     over the returned words and decode with the same models: exactly the message comes back
     (FIFO), the decoder then reports `maybe_exhausted`, and the empty message produces no words. -/
 theorem C02_range_roundtrip {Sym : Type} {c : Cfg} (hc : RValid c) (msg : List (MStep Sym))
-    (hv : ∀ x ∈ msg, x.Valid c) :
+    (hn : MsgFits c msg.length) (hv : ∀ x ∈ msg, x.Valid c) :
     ∃ e ws d0 d, encodeMsg c (Encoder.empty c) msg = .ok e ∧
       intoCompressed c e = .ok ws ∧
       Decoder.fromCompressed c ws = .ok d0 ∧
       decodeMsg c d0 msg = .ok (msg.map (·.sym), d) ∧
       d.maybeExhausted c = .ok true ∧
       (msg = [] → ws = []) :=
-  roundtrip hc msg hv
+  roundtrip hc msg hn hv
 
 /-- the round trip for exactly the kind of input the correspondence runs feed to the real
     coders: per symbol a probability type `B`, a precision `P`, a strictly increasing table
     `cdf` from `0` to `2^P` (checked executably by `strictCdfB`) and a symbol of the table -/
 theorem C02_range_roundtrip_tables {c : Cfg} (hc : RValid c)
-    (tbl : List (Nat × Nat × List Nat × Nat))
+    (tbl : List (Nat × Nat × List Nat × Nat)) (hn : MsgFits c tbl.length)
     (hv : ∀ t ∈ tbl, RValid (cfgAt c t.1 t.2.1) ∧ strictCdfB t.2.1 t.2.2.1 = true ∧
       t.2.2.2 + 1 < t.2.2.1.length) :
     ∃ e ws d0 d,
@@ -67,7 +76,8 @@ theorem C02_range_roundtrip_tables {c : Cfg} (hc : RValid c)
     obtain ⟨t, ht, rfl⟩ := List.mem_map.mp hx
     obtain ⟨h1, h2, h3⟩ := hv t ht
     exact MStep.valid_of_table h1 (strictCdf_of_check h2) h3
-  obtain ⟨e, ws, d0, d, h1, h2, h3, h4, h5, _⟩ := roundtrip hc _ hvalid
+  obtain ⟨e, ws, d0, d, h1, h2, h3, h4, h5, _⟩ :=
+    roundtrip hc _ (by rw [List.length_map]; exact hn) hvalid
   refine ⟨e, ws, d0, d, h1, h2, h3, ?_, h5⟩
   rw [h4, List.map_map]
   rfl
@@ -83,6 +93,8 @@ theorem C02_range_seal_point {c : Cfg} (hc : RValid c) {st : RangeSpec.St} (hI :
 three different precisions that passes through the inverted situation and resolves it with a
 carry (`126 → 127`) -/
 example : RValid exCfg := exCfg_valid
+example : MsgFits exCfg exMsg.length := by decide
+example : Fits exCfg exInverted 1 := by decide
 example : ∀ x ∈ exMsg, x.Valid exCfg := exMsg_valid
 example : encodeMsg exCfg (Encoder.empty exCfg) (exMsg.take 2) = .ok exInverted := ex_prefix
 example : Inv exCfg exInverted := exInverted_inv
